@@ -289,7 +289,8 @@ def run_case(vk, p):
             if kind == "cambridge":
                 c = p["cohesion"][b][b]
                 vals = {}
-                for s, w in zip(blocs, [c, 1 - c]):
+                # the bloc's own slate carries the share c, the opposing slate 1 - c (by name, whatever the dict order)
+                for s, w in zip([b] + [x for x in blocs if x != b], [c, 1 - c]):
                     for cand, v in slate_interval(p, b, s).items():
                         if v * Fraction(w) > 0:
                             vals[cand] = v * Fraction(w)
@@ -317,9 +318,18 @@ def run_case(vk, p):
                     own_sup = [c for c, v in zip(slates[b], p["supports"][b][b]) if v > 0]
                     opp_sup = [c for c, v in zip(slates[opp], p["supports"][b][opp]) if v > 0]
                     coh = p["cohesion"][b][b]
-                    if kind == "cambridge" and (coh in (0, 1) or p.get("hist") is None):
+                    if kind == "cambridge" and p.get("hist") is None:
                         continue
-                    if not own_sup or not opp_sup:
+                    if kind == "cambridge" and coh in (0, 1):
+                        # full cohesion: every ballot is bloc-first (resp. opposing-first) and only that slate's
+                        # candidates keep support in the combined interval
+                        if (coh == 1 and not own_sup) or (coh == 0 and not opp_sup):
+                            continue
+                        if (coh == 1 and n_cross > 0) or (coh == 0 and n_bloc > 0):
+                            # the apportionment library seated a voter type of proportion zero (finding F-C14-a, reported
+                            # by C14): no ballot of that type can be formed
+                            continue
+                    elif not own_sup or not opp_sup:
                         continue
                     opp_first = sum(Fraction(x.weight) for x in obs["by_bloc"][b].ballots
                                     if x.ranking and str(next(iter(x.ranking[0]))) in slates[opp])
